@@ -1,5 +1,6 @@
 import WebAuthnModel.Spec.Attestation
 import WebAuthnModel.Theorems.C12
+import WebAuthnModel.Proofs.JwsLemmas
 /-
   C03 — what each signed attestation format binds.
   (1) the signed / hashed message formats are injective (for all lengths);
@@ -253,34 +254,27 @@ theorem apple_core (env : Prog.Env) (o : AttObj) (h : Bytes) (res : Result)
               · exact ⟨der, c, rest, e, hc, by simpa using hr.symm, he, by rw [hne]; exact hn⟩
   · simp at hr
 
+/-- two descriptions of the same response carry the same nonce -/
+theorem safetyNetResponse_nonce_unique (env : Prog.Env) (raw n n' : Bytes)
+    (h : Spec.Att.SafetyNetResponse env raw n) (h' : Spec.Att.SafetyNetResponse env raw n') : n = n' := by
+  rcases h with ⟨c, der, cert, rest, hp, -, -, -, -, hcl⟩ | ⟨v, hu, ha, -, -, -, hn⟩
+  · rcases h' with ⟨c', der', cert', rest', hp', -, -, -, -, hcl'⟩ | ⟨v', hu', -⟩
+    · rw [hp] at hp'
+      cases hp'
+      exact Option.some.inj (hcl.symm.trans hcl')
+    · rw [hp] at hu'; cases hu'
+  · rcases h' with ⟨c', der', cert', rest', hp', -⟩ | ⟨v', hu', ha', -, -, -, hn'⟩
+    · rw [hu] at hp'; cases hp'
+    · rw [ha] at ha'
+      cases ha'
+      exact hn.symm.trans hn'
+
 theorem safetyNet_core (env : Prog.Env) (o : AttObj) (h : Bytes) (res : Result)
     (hr : Prog.run env (verifySafetyNet o h) = some res) :
-    ∃ raw v, stmtBytes o.stmt "response" = some raw ∧ env.answer (.safetyNet raw) = .safetyNet v ∧
-      v.parsed = true ∧ v.chainsOK = true ∧ v.claimsOK = true ∧
-      v.nonce = Spec.sha256 env (o.authData ++ h) ∧ res = ⟨"Basic", []⟩ := by
-  unfold verifySafetyNet at hr
-  split at hr
-  · simp at hr
-  · rename_i raw hraw
-    simp only [Prog.run_bind, Prog.run_query] at hr
-    split at hr
-    · rename_i v hv
-      simp only [Prog.run_bind, Prog.run_pure, run_ite, run_sha256] at hr
-      split at hr
-      · simp at hr
-      · rename_i h1
-        split at hr
-        · simp at hr
-        · rename_i h2
-          split at hr
-          · simp at hr
-          · rename_i h3
-            split at hr
-            · simp at hr
-            · rename_i h4
-              exact ⟨raw, v, hraw, hv, by simpa using h1, by simpa using h2, by simpa using h3, by simpa using h4,
-                by simpa using hr.symm⟩
-    · simp at hr
+    ∃ raw nonce, stmtBytes o.stmt "response" = some raw ∧ Spec.Att.SafetyNetResponse env raw nonce ∧
+      nonce = Spec.sha256 env (o.authData ++ h) ∧ res = ⟨"Basic", []⟩ :=
+  ((JwsLemmas.verifySafetyNet_iff env o h res).1 hr).body
+
 theorem run_guard {α} (env : Prog.Env) (c : Prop) [Decidable c] (p : Prog (Option α)) (r : α)
     (h : Prog.run env (if c then pure none else p) = some r) : ¬c ∧ Prog.run env p = some r := by
   by_cases hc : c
@@ -493,10 +487,10 @@ theorem apple_binding (env : Prog.Env) (o : AttObj) (h : Bytes) (res : Result)
 
 theorem safetyNet_binding (env : Prog.Env) (o : AttObj) (h : Bytes) (res : Result)
     (hr : Prog.run env (verifySafetyNet o h) = some res) :
-    ∃ raw v, stmtBytes o.stmt "response" = some raw ∧ env.answer (.safetyNet raw) = .safetyNet v ∧
-      v.chainsOK = true ∧ v.claimsOK = true ∧ v.nonce = Spec.sha256 env (o.authData ++ h) := by
-  obtain ⟨raw, v, h1, h2, -, h3, h4, h5, -⟩ := safetyNet_core env o h res hr
-  exact ⟨raw, v, h1, h2, h3, h4, h5⟩
+    ∃ raw nonce, stmtBytes o.stmt "response" = some raw ∧ Spec.Att.SafetyNetResponse env raw nonce ∧
+      nonce = Spec.sha256 env (o.authData ++ h) := by
+  obtain ⟨raw, nonce, h1, h2, h3, -⟩ := safetyNet_core env o h res hr
+  exact ⟨raw, nonce, h1, h2, h3⟩
 
 /-! ### binding under the idealised hypotheses -/
 
@@ -670,14 +664,13 @@ theorem safetyNet_binds_partial (env : Prog.Env) (hi : HashInj env) (o o' : AttO
     (hd' : ∃ v, env.answer (.sha256 (o'.authData ++ h')) = .bytes v)
     (hr : Prog.run env (verifySafetyNet o h) = some res) (hr' : Prog.run env (verifySafetyNet o' h') = some res') :
     o.authData = o'.authData ∧ h = h' := by
-  obtain ⟨raw, v, h1, h2, -, -, -, h3, -⟩ := safetyNet_core env o h res hr
-  obtain ⟨raw', v', h1', h2', -, -, -, h3', -⟩ := safetyNet_core env o' h' res' hr'
+  obtain ⟨raw, nonce, h1, h2, h3, -⟩ := safetyNet_core env o h res hr
+  obtain ⟨raw', nonce', h1', h2', h3', -⟩ := safetyNet_core env o' h' res' hr'
   rw [hs] at h1'
   obtain rfl : raw = raw' := Option.some.inj (h1.symm.trans h1')
-  obtain rfl : v = v' := by
-    have := h2.symm.trans h2'
-    simpa using this
-  exact concat_hash_inj _ _ _ _ hl (sha_inj env hi _ _ hd hd' (h3.symm.trans h3'))
+  have hn := safetyNetResponse_nonce_unique env raw nonce nonce' h2 h2'
+  rw [h3, h3'] at hn
+  exact concat_hash_inj _ _ _ _ hl (sha_inj env hi _ _ hd hd' hn)
 
 open Spec.Att in
 theorem safetyNet_binds_of_nonce_ne_nil (env : Prog.Env) (hi : HashInj env) (o o' : AttObj) (h h' : Bytes) (res res' : Result)
@@ -685,15 +678,14 @@ theorem safetyNet_binds_of_nonce_ne_nil (env : Prog.Env) (hi : HashInj env) (o o
     (hne : Spec.sha256 env (o.authData ++ h) ≠ [])
     (hr : Prog.run env (verifySafetyNet o h) = some res) (hr' : Prog.run env (verifySafetyNet o' h') = some res') :
     o.authData = o'.authData ∧ h = h' := by
-  obtain ⟨raw, v, h1, h2, -, -, -, h3, -⟩ := safetyNet_core env o h res hr
-  obtain ⟨raw', v', h1', h2', -, -, -, h3', -⟩ := safetyNet_core env o' h' res' hr'
+  obtain ⟨raw, nonce, h1, h2, h3, -⟩ := safetyNet_core env o h res hr
+  obtain ⟨raw', nonce', h1', h2', h3', -⟩ := safetyNet_core env o' h' res' hr'
   rw [hs] at h1'
   obtain rfl : raw = raw' := Option.some.inj (h1.symm.trans h1')
-  obtain rfl : v = v' := by
-    have := h2.symm.trans h2'
-    simpa using this
+  have hn := safetyNetResponse_nonce_unique env raw nonce nonce' h2 h2'
+  rw [h3, h3'] at hn
   exact safetyNet_binds_partial env hi o o' h h' res res' hs hl (sha_answered_of_ne_nil _ _ hne)
-    (sha_answered_of_ne_nil _ _ ((h3.symm.trans h3') ▸ hne)) hr hr'
+    (sha_answered_of_ne_nil _ _ (hn ▸ hne)) hr hr'
 
 open Spec.Att in
 theorem u2f_binds (env : Prog.Env) (hb : SigBinds env) (o o' : AttObj) (h h' : Bytes) (res res' : Result)
@@ -763,6 +755,8 @@ theorem appleNonceExt_nonce : KeyDesc.appleNonce appleNonceExt = some [] := by
 def noShaEnv : Prog.Env := ⟨fun q => match q with
   | .safetyNet _ => .safetyNet ⟨true, true, true, []⟩
   | .x509Parse _ => .cert ⟨3, false, [], [], [], [], [⟨Generated.Core.oidAppleNonce, false, appleNonceExt⟩], [], .ed (zeros 32)⟩
+  | .x509Verify .. => .bool true
+  | .jwsVerify .. => .bool true
   | _ => .none⟩
 
 theorem noShaEnv_ok : SigBinds noShaEnv ∧ HashInj noShaEnv := by
@@ -772,11 +766,49 @@ theorem noShaEnv_ok : SigBinds noShaEnv ∧ HashInj noShaEnv := by
   · intro d d' v h1; cases h1
   · intro id d d' v h1; cases h1
 
-def snStmt : List (Bytes × Cbor.Value) := [(Att.s "response", .bytes [])]
+/-- a response in the JSON serialisation (first byte '{'): the form answered by the opaque dependency view -/
+def snStmt : List (Bytes × Cbor.Value) := [(Att.s "response", .bytes [123])]
 
 theorem safetyNet_accepts (ad : Bytes) :
     Prog.run noShaEnv (verifySafetyNet ⟨[], ad, snStmt⟩ []) = some ⟨"Basic", []⟩ := by
   with_unfolding_all rfl
+
+/-- kernel evaluation of the JWS model on the compact example token (restated as `safetyNet_compact_parse` below) -/
+theorem compact_parse_aux :
+    (match Jws.parse (Bytes.ofString "eyJ4NWMiOlsiQUE9PSJdfQ.e30.") with
+     | .ok c => c.x5c == [[0]] && c.payload == Bytes.ofString "{}" && c.signature == [] && c.verifiable &&
+                c.signingInput == Bytes.ofString "eyJ4NWMiOlsiQUE9PSJdfQ.e30" && Jws.claims c.payload == some []
+     | _ => false) = true := by
+  decide +kernel
+
+/-- a compact token `base64url({"x5c":["AA=="]}) . base64url({}) . ""`: one x5c entry, empty claims (nonce absent = empty) -/
+def snCompactStmt : List (Bytes × Cbor.Value) := [(Att.s "response", .bytes (Bytes.ofString "eyJ4NWMiOlsiQUE9PSJdfQ.e30."))]
+
+/-- non-vacuity of the compact branch: with the dependencies answering positively the Lean JWS model takes this token through
+    header decoding, x5c decoding, claims decoding and the nonce comparison -/
+theorem safetyNet_accepts_compact (ad : Bytes) :
+    Prog.run noShaEnv (verifySafetyNet ⟨[], ad, snCompactStmt⟩ []) = some ⟨"Basic", []⟩ := by
+  have hp := compact_parse_aux
+  have hraw : stmtBytes snCompactStmt "response" = some (Bytes.ofString "eyJ4NWMiOlsiQUE9PSJdfQ.e30.") := by decide +kernel
+  rw [JwsLemmas.verifySafetyNet_iff]
+  cases hc : Jws.parse (Bytes.ofString "eyJ4NWMiOlsiQUE9PSJdfQ.e30.") with
+  | ok c =>
+    rw [hc] at hp
+    simp only [Bool.and_eq_true, beq_iff_eq] at hp
+    obtain ⟨⟨⟨⟨⟨hx, -⟩, -⟩, hv⟩, -⟩, hcl⟩ := hp
+    refine ⟨_, [], hraw, Spec.Att.SafetyNetResponse.compact c [0]
+      ⟨3, false, [], [], [], [], [⟨Generated.Core.oidAppleNonce, false, appleNonceExt⟩], [], .ed (zeros 32)⟩ [] hc ?_ rfl hv rfl hcl, rfl, rfl⟩
+    rw [hx]
+    exact ⟨rfl, rfl, trivial⟩
+  | error => rw [hc] at hp; cases hp
+  | unmodelled => rw [hc] at hp; cases hp
+
+theorem safetyNet_compact_parse :
+    (match Jws.parse (Bytes.ofString "eyJ4NWMiOlsiQUE9PSJdfQ.e30.") with
+     | .ok c => c.x5c == [[0]] && c.payload == Bytes.ofString "{}" && c.signature == [] && c.verifiable &&
+                c.signingInput == Bytes.ofString "eyJ4NWMiOlsiQUE9PSJdfQ.e30" && Jws.claims c.payload == some []
+     | _ => false) = true :=
+  compact_parse_aux
 
 /-- `safetyNet_binds` without an extra hypothesis is FALSE: with SHA-256 unavailable (so `HashInj` holds vacuously for it)
     the empty nonce matches every authenticator data -/
